@@ -2,7 +2,7 @@
 from trkgen import *
 
 ID = "C06"
-THEOREM_MODULES = ["SimVerif.Props.C06", "SimVerif.Props.C06b"]
+THEOREM_MODULES = ["SimVerif.Props.C06", "SimVerif.Props.C06b", "SimVerif.Props.Hist"]
 THEOREM_MODULE = "SimVerif.Props.C06"
 NONTRIVIAL_FLAGS = {"pipelined-batches", "pipeline-overlap", "multi-scene-batch", "trace-validated", "slow-consumer-probe", "compared-nonempty", "competition", "shards-interleaved"}
 RULE = ("batch sequences over 1..4 scenes on the real batch tracker (distance shards 1..4, voting workers 1..4, seeded delays of the store workers, a consumer that retrieves immediately or only after a delay), "
@@ -16,10 +16,10 @@ TRUSTED_BASE = ["Lean 4.33 kernel", "axioms: propext, Quot.sound, Classical.choi
 ASSUMPTIONS = ["results of a batch are retrieved before the next batch is submitted or from another thread (the property's proviso)", "scenes of one batch are distinct (HashMap keys)"]
 LEVEL_TEXT = ("Lean 4 theorems about the protocol model, for every number of scenes and workers and every schedule (induction over traces): the monitor always equals the number of jobs of the batch not yet decremented; "
               "when nothing is left to do exactly one result per scene has been delivered; in every reachable non-final state some transition is enabled (the consumer's receive being the proviso), and with an empty channel one of the tracker's own threads can move; "
-              "every transition strictly decreases a weighted count of outstanding work, so every schedule terminates. Data refinement (Props/C06b, a simulation proof): a scene job is the step the simple trackers take, it gives the same records from states that agree up to order (predictScene_congr), two jobs of different scenes commute (predictScene_comm), hence for any two orders of the jobs of a batch every scene gets the same records and the final states agree up to order (C06_scene_order, C06_batch_order). "
+              "every transition strictly decreases a weighted count of outstanding work, so every schedule terminates. Data refinement (Props/C06b, a simulation proof): a scene job is the step the simple trackers take, it gives the same records from states that agree up to order (predictScene_congr), two jobs of different scenes commute (predictScene_comm), hence for any two orders of the jobs of a batch every scene gets the same records and the final states agree up to order (C06_scene_order, C06_batch_order); and over whole histories the batch SORT tracker refines the simple SORT tracker up to an injective renaming of ids (C06_refines_simple, Props/Hist.lean). "
               "The real batch trackers are compared scene by scene with the simple trackers, and every logged event trace is replayed as a path of the protocol model.")
 LEVEL_NOTE = "Trusted: Lean kernel; protocol model<->code tie by validated traces (sampled schedules); channel/condvar semantics assumed."
-PARTIAL = ["the renaming of ids between the batch tracker (ids drawn per candidate from the batch range) and the simple tracker (consecutive ids) is not a theorem: the two are compared by the run up to renaming; the theorems cover the protocol (one batch) and the order independence of the scene jobs"]
+PARTIAL = ["C06_refines_simple (Props/Hist.lean) is proved for the SORT pair (batch tracker vs simple tracker configured alike) over histories of predict batches from the empty tracker: the batch tracker's answers are the simple tracker's answers to the same calls served one by one, up to an injective renaming of ids. Not restated as theorems: the VisualSORT pair and histories with skip / wasted calls (compared by the run). The protocol theorems (monitor, one result, progress, termination) are about one batch; pipelined submission is covered by the run and by the monitor wait being part of the model's `predictBatch` precondition"]
 TECHNIQUE = "Lean 4 proof (invariant by induction over traces, progress by case analysis, decreasing measure) with trace validation against the implementation and a batch-vs-simple differential run"
 
 
